@@ -5,13 +5,14 @@ import XmlRsModel.Thm.C01
 /-! Property C04: print then parse gives an equal document; the printer reaches a fixpoint.
     FULL STATEMENT:  `∀ d, Printable d → parseDoc (printDoc d) = .ok (d, [])`  and hence
       `printDoc d' = printDoc d` for the re-parsed `d'`.
-    PROVED for documents without DOCTYPE (`print_parse_roundtrip`, `printer_fixpoint`): the compact
+    PROVED for the whole supported profile, DOCTYPE with internal subset included (`print_parse_roundtrip`, `printer_fixpoint`): the compact
     printer writes one particular rendering (`canonDoc`: one space in front of each attribute, no space around `=`,
     the quote that does not occur in the value, ` />` for an element without children), and every rendering parses to
     the document it renders (C01 `rendering_parses`, the completeness proof of the grammar translated from the current
     source).  `Printable` is spelled out: `canonDoc d = some cd` (the profile), `cd.ok` (the lexical side conditions of
     the productions, decidable), PI data does not start with white space (`faithfulTop`), references declared
-    (`checkDoc`), nesting within the parser's limit.  Documents with a DOCTYPE: differential tie and monitor only.
+    (`checkDoc`), nesting within the parser's limit.  Not covered: element declarations and comments of the internal
+    subset are not part of the abstract document (the library drops them), so they are not printed either.
     Also proved (`…_partial` = parts of the full statement for every document):  the quoting rule is sound exactly
     when the code must refuse the value, the printer is a homomorphism on item lists, leaf items
     print to the delimiters the grammar expects, and anything the parser returns from printed
@@ -70,13 +71,14 @@ theorem reparse_covers_print_partial (d d' : IDoc) (h : parseDoc (printDoc d) = 
           exact ⟨c, .nt _ _ hd', by simpa [CST.flatten] using hf, hd2⟩
   · cases h
 
-/-- ROUND TRIP: the serialization of a printable document (no DOCTYPE) is accepted with nothing left
+/-- ROUND TRIP: the serialization of a printable document is accepted with nothing left
     over and denotes the same document - for every sufficient amount of fuel -/
 theorem print_parse_roundtrip (d : IDoc) (cd : CDoc) (hc : canonDoc d = some cd) (hok : cd.ok = true)
-    (hf : d.kids.all faithfulTop = true) (hdepth : cd.root.depth ≤ maxDepth_element) (hchk : checkDoc d = .ok ()) :
+    (hf : d.kids.all faithfulTop = true) (hdepth : cd.root.depth ≤ maxDepth_element)
+    (hgroups : doctypeDepth cd.doctype ≤ maxDepth_children) (hchk : checkDoc d = .ok ()) :
     ∃ f0, ∀ f, f0 ≤ f → parseDocFuel env false f (printDoc d) = .ok (d, []) := by
   obtain ⟨h1, h2⟩ := Lex.canonDoc_spec d cd hc hf hok
-  have := C01.rendering_parses cd hok hdepth (by rw [h2]; exact hchk)
+  have := C01.rendering_parses cd hok hdepth hgroups (by rw [h2]; exact hchk)
   rw [h1, ← h2]
   rw [h2] at this ⊢
   exact this
@@ -84,9 +86,10 @@ theorem print_parse_roundtrip (d : IDoc) (cd : CDoc) (hc : canonDoc d = some cd)
 /-- FIXPOINT: whatever the parser returns for the serialization of a printable document prints to the identical
     string -/
 theorem printer_fixpoint (d : IDoc) (cd : CDoc) (hc : canonDoc d = some cd) (hok : cd.ok = true)
-    (hf : d.kids.all faithfulTop = true) (hdepth : cd.root.depth ≤ maxDepth_element) (hchk : checkDoc d = .ok ()) :
+    (hf : d.kids.all faithfulTop = true) (hdepth : cd.root.depth ≤ maxDepth_element)
+    (hgroups : doctypeDepth cd.doctype ≤ maxDepth_children) (hchk : checkDoc d = .ok ()) :
     ∃ f0, ∀ f, f0 ≤ f → ∀ d' rest, parseDocFuel env false f (printDoc d) = .ok (d', rest) → rest = [] ∧ printDoc d' = printDoc d := by
-  obtain ⟨f0, h⟩ := print_parse_roundtrip d cd hc hok hf hdepth hchk
+  obtain ⟨f0, h⟩ := print_parse_roundtrip d cd hc hok hf hdepth hgroups hchk
   refine ⟨f0, fun f hf' d' rest h' => ?_⟩
   rw [h f hf'] at h'
   simp only [Except.ok.injEq, Prod.mk.injEq] at h'
@@ -94,10 +97,11 @@ theorem printer_fixpoint (d : IDoc) (cd : CDoc) (hc : canonDoc d = some cd) (hok
 
 /-- at the fuel the model uses: the document, or the model's fuel artefact -/
 theorem print_parse_roundtrip_at_model_fuel (d : IDoc) (cd : CDoc) (hc : canonDoc d = some cd) (hok : cd.ok = true)
-    (hf : d.kids.all faithfulTop = true) (hdepth : cd.root.depth ≤ maxDepth_element) (hchk : checkDoc d = .ok ()) :
+    (hf : d.kids.all faithfulTop = true) (hdepth : cd.root.depth ≤ maxDepth_element)
+    (hgroups : doctypeDepth cd.doctype ≤ maxDepth_children) (hchk : checkDoc d = .ok ()) :
     parseDoc (printDoc d) = .ok (d, []) ∨ parseDoc (printDoc d) = .error .fuel := by
   obtain ⟨h1, h2⟩ := Lex.canonDoc_spec d cd hc hf hok
-  have := C01.rendering_parses_at_model_fuel cd hok hdepth (by rw [h2]; exact hchk)
+  have := C01.rendering_parses_at_model_fuel cd hok hdepth hgroups (by rw [h2]; exact hchk)
   rw [h1]
   rw [h2] at this
   exact this
@@ -106,9 +110,15 @@ theorem print_parse_roundtrip_at_model_fuel (d : IDoc) (cd : CDoc) (hc : canonDo
     references, CDATA, comment and PIs -/
 def exItem : Item := .elem ⟨none, ['a']⟩ [⟨⟨some ['p'], ['k']⟩, [.text ['v', '"'], .entRef ['a', 'm', 'p']]⟩, ⟨⟨none, ['x']⟩, [.text ['\'']]⟩]
   [.elem ⟨none, ['b']⟩ [] [], .text ['t'], .charRef ['6', '5'] false, .cdata ['c'], .comment ['-', 'c'], .pi ['q'] (some ['d', ' '])]
-def exIDoc : IDoc := ⟨some ['1', '.', '0'], some ['U', 'T', 'F', '-', '8'], some true, [.comment ['h'], .elem exItem, .pi ['z'] none]⟩
-example : ∃ cd, canonDoc exIDoc = some cd ∧ cd.ok = true ∧ exIDoc.kids.all faithfulTop = true ∧ cd.root.depth ≤ maxDepth_element :=
-  ⟨_, rfl, by decide, by decide, by decide⟩
+def exDoctype : Doctype := ⟨⟨none, ['a']⟩, some ['-', '/', '/', 'X'], some ['u', '"'],
+  [.attlist ⟨none, ['a']⟩ [⟨⟨some ['p'], ['k']⟩, .cdata, .implied⟩, ⟨⟨none, ['t']⟩, .enumeration [['x'], ['y']], .value true [.text ['x']]⟩,
+     ⟨⟨none, ['n']⟩, .notation [['g']], .required⟩],
+   .entity ['e'] (.internal [.text ['v', '"'], .charRef ['6', '5'] false, .peRef ['q']]),
+   .entity ['u'] (.external none ['f'] (some ['g'])), .notation ['g'] (some ['i', 'd']) none, .pi ['t'] none]⟩
+def exIDoc : IDoc := ⟨some ['1', '.', '0'], some ['U', 'T', 'F', '-', '8'], some true, [.comment ['h'], .doctype exDoctype, .pi ['y'] none, .elem exItem, .pi ['z'] none]⟩
+example : ∃ cd, canonDoc exIDoc = some cd ∧ cd.ok = true ∧ exIDoc.kids.all faithfulTop = true ∧ cd.root.depth ≤ maxDepth_element ∧
+    doctypeDepth cd.doctype ≤ maxDepth_children :=
+  ⟨_, rfl, by decide, by decide, by decide, by decide⟩
 example : checkDoc exIDoc = .ok () := by rfl
 
 example : escapeQ ['a', '"', 'b'] = ['\'', 'a', '"', 'b', '\''] ∧ escapeQ ['a', '\''] = ['"', 'a', '\'', '"'] := by decide
